@@ -10,6 +10,7 @@
 // opts: nmsg=50 (injected Messages per case)
 #include "reflectbench.h"
 #include "regex/QueryFilter.h"
+#include "reflector/FilterSessionFactory.h"
 #include "util/MiscUtilityFunctions.h"
 #include <deque>
 #include <time.h>
@@ -268,8 +269,8 @@ struct Case {
    rb::Bench * b; rb::Client * wit; rb::Client * sub; std::vector<rb::Client *> att;
    long k; int msgNo, nmsg; std::string recipe; int step; bool inRecipe, mutate, bad, priv;
    std::deque<std::string> trace; uint64_t digest; long maxQ; int recipesDone; int32 pingTag;
-   std::vector<NodeInfo> nodes; bool nodesValid;
-   Case() : b(NULL), wit(NULL), sub(NULL), k(0), msgNo(0), nmsg(50), step(0), inRecipe(false), mutate(true), bad(false), priv(false), digest(1469598103934665603ULL), maxQ(0), recipesDone(0), pingTag(0), nodesValid(false) {}
+   std::vector<NodeInfo> nodes; bool nodesValid; uint16 factoryPort;
+   Case() : factoryPort(0), b(NULL), wit(NULL), sub(NULL), k(0), msgNo(0), nmsg(50), step(0), inRecipe(false), mutate(true), bad(false), priv(false), digest(1469598103934665603ULL), maxQ(0), recipesDone(0), pingTag(0), nodesValid(false) {}
 };
 static bool Done(const Case & c) { return c.bad || c.msgNo >= c.nmsg; }
 static rb::Client * A(Case & c) { return c.att[R((uint32_t)c.att.size())]; }
@@ -649,10 +650,33 @@ static MessageRef BlindMsg(Case & c, int depth)
    }
    return m;
 }
+// privileged deployments: attackers come in through a listening port whose factory is a FilterSessionFactory (the production accept
+// path: DoAccept -> FilterSessionFactory::CreateSession with the ban / require patterns -> StorageReflectSessionFactory), so that
+// ADDBANS / REMOVEBANS / ADDREQUIRES / REMOVEREQUIRES of a privileged client reach the factory.  NULL if the factory refused.
+static rb::Client * AddTcpClient(Case & c)
+{
+   if (c.factoryPort == 0) return NULL;
+   std::set<uint32> before; for (ConstHashtableIterator<const String *, AbstractReflectSessionRef> it(c.b->server.GetSessions()); it.HasData(); it++) if (it.GetValue()()) before.insert(it.GetValue()()->GetSessionID());
+   ConstSocketRef s = Connect(IPAddressAndPort(localhostIP, c.factoryPort), NULL, NULL, true);
+   if (s() == NULL) rb::Abort("cannot connect to the bench's own listening port");
+   (void)SetSocketBlockingEnabled(s, false); (void)SetSocketSendBufferSize(s, 2048); (void)SetSocketReceiveBufferSize(s, 2048);
+   StorageReflectSessionRef ss;
+   for (int i = 0; i < 20 && ss() == NULL; i++) {
+      (void)c.b->Step();
+      for (ConstHashtableIterator<const String *, AbstractReflectSessionRef> it(c.b->server.GetSessions()); it.HasData(); it++) if (it.GetValue()() && !before.count(it.GetValue()()->GetSessionID())) { StorageReflectSession * p = dynamic_cast<StorageReflectSession *>(it.GetValue()()); if (p) ss.SetRef(p); }
+   }
+   if (ss() == NULL) { vh::stat("tcp_connection_refused_by_filter_factory"); return NULL; }
+   (void)SetSocketSendBufferSize(ss()->GetSessionWriteSelectSocket(), 2048);
+   rb::Client * cl = new rb::Client; cl->slow = true; cl->sock = s; cl->io = new rb::BudgetDataIO(s); cl->ioRef.SetRef(cl->io); cl->gw.SetDataIO(cl->ioRef); cl->session = ss;
+   cl->root = ss()->GetSessionRootPath()(); cl->sid = ss()->GetSessionIDString()(); cl->host = ss()->GetHostName()(); cl->id = ss()->GetSessionID();
+   c.b->clients.push_back(cl); vh::stat("tcp_clients_accepted_through_filter_factory");
+   return cl;
+}
+static rb::Client * NewAttacker(Case & c) { rb::Client * t = AddTcpClient(c); if (t) return t; rb::Options o; o.slow = true; o.handshake = false; return c.b->AddClient(o); }
 static void ReplaceDead(Case & c)
 {
    for (int i = 0; i < 3; i++) (void)c.b->Step();   // let the server notice closed connections
-   for (size_t i = 0; i < c.att.size(); i++) if (!c.att[i]->alive || !c.b->SessionAttached(c.att[i]->id)) { rb::Options o; o.slow = true; o.handshake = false; c.att[i] = c.b->AddClient(o); vh::stat("attacker_connection_replaced"); }
+   for (size_t i = 0; i < c.att.size(); i++) if (!c.att[i]->alive || !c.b->SessionAttached(c.att[i]->id)) { c.att[i] = NewAttacker(c); vh::stat("attacker_connection_replaced"); }
    if (!c.sub->alive || !c.b->SessionAttached(c.sub->id)) { rb::Options o; o.slow = true; o.handshake = false; c.sub = c.b->AddClient(o); vh::stat("subscriber_connection_replaced"); }
 }
 typedef char kRightTypeSizeCheck[(sizeof(kRightType) / sizeof(kRightType[0]) == sizeof(kReserved) / sizeof(kReserved[0])) ? 1 : -1];
@@ -797,6 +821,8 @@ static void R_Privileged(Case & c)
 {
    RecipeScope rs(c, "privileged"); rb::Client * s = A(c);
    const int n = 1 + R(3); for (int i = 0; i < n && !Done(c); i++) Inject(c, s, M_Priv(c, s), "privileged-command");
+   // the accept path evaluates the (hostile) ban / require patterns against the peer's address: knock at the door
+   if (c.priv && !Done(c)) { vh::note(vh::fmt("msg %d privileged/%d: a new TCP connection is offered to the FilterSessionFactory", c.msgNo, c.step + 1)); vh::stat("probe_connections_after_ban_commands"); rb::Client * t = AddTcpClient(c); if (t) t->Cut(); PingAndSettle(c, "rss-growth"); }
 }
 static void R_Churn(Case & c)
 {
@@ -842,10 +868,15 @@ static const RecipeFn kRecipes[] = {R_ResultsJettison, R_ResultsJettison, R_Resu
 static void SetupCase(Case & c, bool grantPrivileges)
 {
    c.b = new rb::Bench;
-   if (grantPrivileges) { c.priv = true; (void)c.b->server.GetCentralState().AddString("priv3", "*"); }   // every client of this server is an administrator
-   rb::Options fast; c.wit = c.b->AddClient(fast);
-   rb::Options slow; slow.slow = true;
-   c.sub = c.b->AddClient(slow); c.att.push_back(c.b->AddClient(slow)); c.att.push_back(c.b->AddClient(slow));
+   rb::Options fast; rb::Options slow; slow.slow = true;
+   if (grantPrivileges) {
+      c.priv = true; (void)c.b->server.GetCentralState().AddString("priv3", "*");   // every client of this server is an administrator
+      ReflectSessionFactoryRef slave(new StorageReflectSessionFactory); ReflectSessionFactoryRef ff(new FilterSessionFactory(slave)); uint16 port = 0;
+      if (c.b->server.PutAcceptFactory(0, ff, invalidIP, &port).IsError() || port == 0) rb::Abort("PutAcceptFactory failed");
+      c.factoryPort = port;
+   }
+   c.wit = c.b->AddClient(fast); c.sub = c.b->AddClient(slow);
+   for (int i = 0; i < 2; i++) { rb::Client * t = grantPrivileges ? AddTcpClient(c) : NULL; c.att.push_back(t ? t : c.b->AddClient(slow)); }
    c.wit->got.clear();
 }
 static void TeardownCase(Case & c) { delete c.b; c.b = NULL; }
@@ -932,6 +963,23 @@ static void RegressGuards()
    TeardownCase(c);
 }
 
+// reach self-check: in a privileged deployment the ban / require commands really arrive at the FilterSessionFactory
+static void RegressFactory()
+{
+   Case c; c.mutate = false; c.recipe = "regress-factory"; SetupCase(c, true); rb::Client * s = c.att[0];
+   Expect(s->session() && s->session()->GetPort() == c.factoryPort, "the attacker was accepted through the FilterSessionFactory's port");
+   { MessageRef m = GetMessageFromPool(PR_COMMAND_ADDBANS); (void)m()->AddString(PR_NAME_KEYS, "*"); Inject(c, s, m, "ban-everybody"); }
+   Expect(AddTcpClient(c) == NULL, "a new connection is refused while the ban pattern * is in force");
+   { MessageRef m = GetMessageFromPool(PR_COMMAND_REMOVEBANS); (void)m()->AddString(PR_NAME_KEYS, "?"); Inject(c, s, m, "remove-matching-bans"); }
+   Expect(AddTcpClient(c) != NULL, "connections are accepted again after REMOVEBANS");
+   { MessageRef m = GetMessageFromPool(PR_COMMAND_ADDREQUIRES); (void)m()->AddString(PR_NAME_KEYS, "10.9.8.7"); Inject(c, s, m, "require-another-host"); }
+   Expect(AddTcpClient(c) == NULL, "a new connection is refused while a require pattern does not match");
+   { MessageRef m = GetMessageFromPool(PR_COMMAND_REMOVEREQUIRES); (void)m()->AddString(PR_NAME_KEYS, "*"); Inject(c, s, m, "remove-requires"); }
+   Expect(AddTcpClient(c) != NULL, "connections are accepted again after REMOVEREQUIRES");
+   if (!c.bad) vh::stat("regress_factory_reached");
+   TeardownCase(c);
+}
+
 // ---- deepnest (F6, open) and regexbomb (F10, open): dedicated legs ------------------------------------------------------
 static void Put32(std::string & s, uint32 v) { char b[4] = {(char)v, (char)(v >> 8), (char)(v >> 16), (char)(v >> 24)}; s.append(b, 4); }
 // wire frame of `depth` Messages (what = outerWhat) each holding the next in field `fieldName`, innermost a PING; built iteratively
@@ -982,6 +1030,7 @@ int main(int argc, char ** argv)
       vh::begin_case(0); RegressF9();
       vh::begin_case(1); RegressF31();
       vh::begin_case(2); RegressGuards();
+      vh::begin_case(3); RegressFactory();
       vh::distinct(1, true); vh::distinct(2, true);
    } else if (mode == "hostile") {
       for (long k = c.from; k < c.from + c.cases; k++) { vh::begin_case(k); RunHostileCase(k, vh::case_seed(c.seed, STREAM_HOSTILE, (uint64_t)k)); }
